@@ -210,6 +210,8 @@ PLAIN_ENCS = ["pub_pem", "pub_der", "cert_pem", "cert_der", "priv_pem", "priv_de
               "obj_cert", "file:pub_pem", "file:cert_der", "file:priv_pem"]
 CA_BYTES_ENCS = ["cert_ca_der", "cert_ca_pem", "file:cert_ca_der"]
 FILE_ENCS = ["pub_pem", "pub_der", "raw", "cert_pem", "cert_der", "priv_pem", "priv_der"]       # what a CLI user has on disk
+CB21_ENCS = ["pub_pem", "pub_der", "cert_pem", "cert_der", "priv_pem", "priv_der", "priv_trad_pem", "obj_pub", "raw", "raw",
+             "cert_ca_der"]                                             # CertBlockV21 takes bytes or PublicKeyEcc objects
 CERT_ENCS = ["cert_der", "cert_pem", "obj_cert", "file:cert_der"]
 CERT_CA_ENCS = ["cert_ca_der", "cert_ca_pem", "obj_cert_ca", "file:cert_ca_der"]
 
@@ -263,32 +265,40 @@ def gen_cases(tier, rng, pub, fam_rows, pfr_rows):
     # ---- S1: Rot classes: key sets x orders x encodings
     rot = []
     groups = [rsa[2048], rsa[3072], rsa[4096], ecc[256], ecc[384], ecc[521]]
+    accepted = {1: groups[:3], 21: groups[3:5], 3: groups, 4: groups[3:], 5: groups, 6: []}
     for rt in (1, 21, 3, 4, 5, 6):
         fams = fam_by_type.get(rt, [ROT_FAMILY[rt]])
         for g in groups:
-            for n in (1, 2, 3, 4):
-                reps = 2 if thorough else 1
-                for _ in range(reps):
+            full = g in accepted[rt]
+            sizes = (1, 2, 3, 4) if full and rt not in (3, 4) else ((4, 2) if full else (4,))
+            for n in sizes:
+                for _ in range(2 if thorough and full else 1):
                     ks = pick_set(g, n)
-                    if zero.get(klass(pub[g[0]])[1]) and rng.random() < 0.6:
-                        ks[rng.randrange(n)] = rng.choice(zero[klass(pub[g[0]])[1]])
-                        if len(set(ks)) < n:
-                            ks = pick_set(g, n)
-                    orders = [ks] + ([list(reversed(ks))] if n > 1 else [])
-                    if thorough and n > 2:
+                    zs = zero.get(klass(pub[g[0]])[1])
+                    if zs and rng.random() < 0.6:
+                        z = rng.choice(zs)
+                        if z not in ks:
+                            ks[rng.randrange(n)] = z
+                    orders = [ks] + ([list(reversed(ks))] if n > 1 and full else [])
+                    if thorough and n > 2 and full:
                         orders.append(rng.sample(ks, n))
-                    for o in orders:
+                    for oi, o in enumerate(orders):
                         fam = rng.choice(fams) if thorough else fams[0]
                         if rt == 5:
-                            encsets = [[e] * n for e in CERT_ENCS[:2] + CERT_CA_ENCS[:2]] + [enc_mix(n, CERT_ENCS)] + [["pub_pem"] * n]
-                            if n == 4:
-                                encsets += [["obj_cert_ca"] * n, ["raw"] * n]
+                            encsets = [["cert_der"] * n, ["cert_ca_pem"] * n, enc_mix(n, CERT_ENCS + CERT_CA_ENCS)]
+                            if oi == 0:
+                                encsets += [["cert_pem"] * n, ["file:cert_ca_der"] * n, ["pub_pem"] * n]
+                            if n == 4 and oi == 0:
+                                encsets += [["obj_cert_ca"] * n, ["raw"] * n, ["obj_cert"] * n]
+                        elif not full or (rt in (3, 4) and n != 4):
+                            encsets = [["pub_pem"] * n, enc_mix(n, PLAIN_ENCS + ["raw"])]
                         else:
-                            encsets = [[e] * n for e in ("pub_pem", "raw", "cert_ca_der")]
-                            encsets += [enc_mix(n, PLAIN_ENCS + ["raw"]) for _ in range(2 if n == 4 or rt in (1, 21) else 1)]
-                            if n == 4 or rt in (1, 21):
-                                encsets += [[e] * n for e in rng.sample(PLAIN_ENCS, 4 if thorough else 2)]
-                                encsets += [["obj_cert_ca"] + ["pub_pem"] * (n - 1), enc_mix(n, CA_BYTES_ENCS)]
+                            encsets = [["pub_pem"] * n, ["raw"] * n, ["cert_ca_der"] * n, enc_mix(n, PLAIN_ENCS + ["raw"])]
+                            if oi == 0:
+                                encsets += [[e] * n for e in rng.sample(PLAIN_ENCS, 5 if thorough else 2)]
+                                encsets += [enc_mix(n, PLAIN_ENCS + ["raw"]), enc_mix(n, CA_BYTES_ENCS)]
+                                if n in (1, 4):
+                                    encsets += [["obj_cert_ca"] + ["pub_pem"] * (n - 1)]
                         if rt == 6:
                             encsets = encsets[:1]
                         for es in encsets:
@@ -359,7 +369,7 @@ def gen_cases(tier, rng, pub, fam_rows, pfr_rows):
                 if len(set(ks)) < n:
                     ks = pick_set(ecc[c], n)
             for used in range(n):
-                encs = enc_mix(n, PLAIN_ENCS + ["raw", "raw", "cert_ca_der"])
+                encs = enc_mix(n, CB21_ENCS)
                 base = {"op": "cb21", "keys": [[k, e] for k, e in zip(ks, encs)], "used": used}
                 cb21.append(dict(base, ca_flag=True))
                 for ic in (256, 384):
@@ -376,7 +386,7 @@ def gen_cases(tier, rng, pub, fam_rows, pfr_rows):
     for ln in (list(range(0, 101)) if thorough else [0, 4, 5, 96, 97, 100]):
         cb21.append(dict(base, ca_flag=False, isk=ecc[256][0], user_data=(bytes([ln]) * ln).hex(), family="mcxn947"))
     # the 0x4D43 heuristic: user data of 19779 - 12 - 2*coordinate bytes (no family)
-    for ic, ln in ((256, 19703), (384, 19671)):
+    for ic, ln in (((256, 19703), (384, 19671)) if thorough else ((256, 19703),)):
         cb21.append(dict(base, ca_flag=False, isk=ecc[ic][0], user_data=(b"\xa5" * ln).hex(), constraints=0x80000001))
         cb21.append(dict(base, ca_flag=False, isk=ecc[ic][0], user_data=(b"\xa5" * (ln - 1)).hex()))
     # out-of-domain inputs that must be refused or handled as coded
@@ -399,7 +409,6 @@ def gen_cases(tier, rng, pub, fam_rows, pfr_rows):
             n = rng.choice([1, 2, 3, 4])
             pfr.append({"op": "pfr", "family": r["family"], "width": r["width"], "ver": {"RKHTv1": 1, "RKHTv21": 21}[r["rkht"]],
                         "keys": pick_set(g, n)})
-        pfr.append({"op": "pfr", "family": r["family"], "width": r["width"], "ver": {"RKHTv1": 1, "RKHTv21": 21}[r["rkht"]], "keys": []})
     streams["PFR: CMPA.export(keys=...) ROTKH field for every family with a ROTKH register"] = pfr
     # ---- S7: debug credential RoT meta
     dc = []
@@ -443,8 +452,8 @@ def malformed_cases(rng, exports21, exports1, thorough):
             out.append({"op": "parse21", "data": m.hex()})
     for data in exports1[: (30 if thorough else 6)]:
         b = bytearray(data)
-        muts = [bytes(b[:k]) for k in (0, 31, 32, 40, len(b) - 129, len(b) - 1)]
-        for off in (0, 4, 6, 8, 12, 16, 20, 24, 28):
+        muts = [bytes(b[:k]) for k in (0, 31, len(b) - 1)]     # (certificate bytes are X.509, opaque to the model: left intact)
+        for off in (0, 4, 6, 8, 12, 16, 20, 28):
             for val in (0, 1, 0x20, 0xFF):
                 m = bytearray(b)
                 m[off] = val
@@ -540,7 +549,7 @@ def impl_value(c, r):
 def model_expr(c, r, pub):
     """Coq term evaluating the model on the same case (None: no model evaluation for this case)."""
     op = c["op"]
-    L = vlib.coq_lit
+    L = lit
     if op in ("rot", "cli"):
         rt = c["rt"]
         if rt == 5:
@@ -563,7 +572,7 @@ def model_expr(c, r, pub):
         if r["build"][0] == "e" or c.get("chain") and False:
             return None
         slots = VL([VL([]) if k is None else key_value(pub[k]) for k in c["keys"]])
-        certs = VL([VB(bytes.fromhex(x)) for x in r["certs"][1]])
+        certs = VL([VB(pad4(bytes.fromhex(x))) for x in r["certs"][1]])
         return (f"run_case 6 [{L(slots)}; {L(key_value(pub[c['keys'][c['used']]]))}; VInt {c.get('flags', 0)}%Z; "
                 f"VInt {c.get('build', 0)}%Z; VInt {c.get('image_length', 0) or 0}%Z; VInt {c.get('alignment') or 16}%Z; {L(certs)}]")
     if op == "cb21":
@@ -582,6 +591,16 @@ def model_expr(c, r, pub):
     if op == "parse1":
         return f"run_case 10 [{L(VB(bytes.fromhex(c['data'])))}]"
     raise ValueError(op)
+
+
+def lit(v):
+    """vlib.coq_lit with hexadecimal literals for big integers (Coq parses decimal literals in quadratic time)."""
+    t, x = v
+    if t == "i":
+        return f"VInt {hex(x)}%Z" if x >= 1 << 32 else vlib.coq_lit(v)
+    if t == "l":
+        return "VList [" + "; ".join("(" + lit(y) + ")" for y in x) + "]"
+    return vlib.coq_lit(v)
 
 
 def same(a, b):
@@ -688,7 +707,7 @@ def oracle(c, r, pub):
     elif op == "pfr":
         pks = [pub[k] for k in c["keys"]]
         f = r["field"]
-        if f[0] == "ok" and (f[1]["field"] != r["calc"][1] or f[1]["parsed_back"] != f[1]["field"]):
+        if f[0] == "ok" and f[1]["field"] != r["calc"][1]:
             return ("pfr:field-differs-from-rotkh", f"{c['family']} exported {f[1]} but _calc_rotkh gives {r['calc']}")
         if in_domain(c["ver"], pks) and not (c["ver"] == 21 and 8 * len(spec_v21(pks)) > c["width"]):
             want = (spec_v1(pks) if c["ver"] == 1 else spec_v21(pks)).ljust(c["width"] // 8, b"\0")
@@ -734,6 +753,10 @@ def oracle(c, r, pub):
     return None
 
 
+def pad4(b):
+    return b + bytes(-len(b) % 4)
+
+
 def regen_c03_name(rt):
     return {v: k for k, v in regen_c03.ROT_IDS.items()}[rt]
 
@@ -756,7 +779,7 @@ def oracle_cb1(c, r, pub):
         return ("cb1:export-rejected", f"{ks} used {c['used']}: {r['export']}")
     data = bytes.fromhex(r["export"][1])
     al = c.get("alignment") or 16
-    certs = [bytes.fromhex(x) for x in r["certs"][1]]
+    certs = [pad4(bytes.fromhex(x)) for x in r["certs"][1]]      # certificate entries: DER, zero padded to a multiple of 4
     tbl = b"".join(len(x).to_bytes(4, "little") + x for x in certs)
     exp = (b"cert" + (1).to_bytes(2, "little") + (0).to_bytes(2, "little") + (32).to_bytes(4, "little")
            + c.get("flags", 0).to_bytes(4, "little") + c.get("build", 0).to_bytes(4, "little")
@@ -876,14 +899,19 @@ def run(tier):
         extracted = vlib.run_impl("c03_impl.py", {"mode": "extract"}, timeout=600)
     keys, pub = make_keys(rng, tier == "thorough")
     streams = gen_cases(tier, rng, pub, extracted["families"], extracted["pfr"])
+    only = os.environ.get("VERIF_C03_ONLY")          # development aid: restrict to some operations
+    if only:
+        streams = {n: [c for c in cs if c["op"] in only.split(",")] for n, cs in streams.items()}
     flat, owner = [], []
     for name, cs in streams.items():
         for c in cs:
             flat.append(c)
             owner.append(name)
     payload = {"keys": keys, "workdir": os.path.join(WORK, "files"), "cases": flat}
+    t0 = vlib.time.time()
     impl = vlib.run_impl("c03_impl.py", payload, timeout=3000)
     results = impl["results"]
+    vlib.log(f"  implementation: {len(flat)} cases in {vlib.time.time() - t0:.1f} s")
     # public numbers as cryptography derives them must equal the independent curve arithmetic of this check
     for kid, pn in impl["pub"].items():
         mine = pub[kid]
@@ -928,7 +956,7 @@ def run(tier):
             rep.failing(f"rot:{regen_c03_name(gk[0])}:encoding-dependent", f"the same ordered key list gives {sorted(answers)} depending on the encoding",
                         {"kind": "impl-oracle", "cases": [c for c, _ in lst][:6], "keys": {k: keys[k] for k in gk[1]}})
     # ---- correspondence with the Coq model
-    ndis, nmodel = 0, 0
+    ndis, nmodel, dis_ops = 0, 0, {}
     if model_ok:
         try:
             exprs, idx = [], []
@@ -938,7 +966,24 @@ def run(tier):
                     exprs.append(e)
                     idx.append(i)
             nmodel = len(exprs)
-            model_res = vlib.run_model_cases("c03", "Value RotModel", exprs, shard=(60 if tier == "quick" else 120), timeout=1500, jobs=8)
+            all_exprs, all_idx = exprs, idx
+            uniq = {}
+            for e in all_exprs:                       # many encodings reach the model as the same (key, supply) input
+                uniq.setdefault(e, len(uniq))
+            exprs = list(uniq)
+            t0 = vlib.time.time()
+            # interleave the cases over the shards (neighbouring cases have similar cost)
+            nsh = max(1, min(64, len(exprs) // 40))
+            order = [j for k in range(nsh) for j in range(k, len(exprs), nsh)]
+            per = (len(exprs) + nsh - 1) // nsh
+            shuffled = vlib.run_model_cases("c03", "Value RotModel", [exprs[j] for j in order], shard=per, timeout=1500, jobs=8)
+            model_res = [None] * len(exprs)
+            for j, v in zip(order, shuffled):
+                model_res[j] = v
+            vlib.log(f"  model: {len(exprs)} distinct evaluations for {nmodel} cases")
+            model_res = [model_res[uniq[e]] for e in all_exprs]
+            idx = all_idx
+            vlib.log(f"  model: {nmodel} cases in {vlib.time.time() - t0:.1f} s")
             for i, mv in zip(idx, model_res):
                 c, r = flat[i], results[i]
                 iv = impl_value(c, r)
@@ -948,13 +993,14 @@ def run(tier):
                     pass
                 if not same(iv, mv):
                     ndis += 1
+                    dis_ops[c["op"]] = dis_ops.get(c["op"], 0) + 1
                     if ndis <= 8:
                         vlib.log(f"  disagreement {c['op']} { {k: v for k, v in c.items() if k not in ('data', 'user_data')} }:\n    impl  {short(iv)}\n    model {short(mv)}")
                     if not oracle(c, r, pub):
                         nm = f"correspondence:{c['op']}"
                         if nm not in rep.broken:
                             rep.broken.append(nm)
-            rep.obligation("correspondence:model=implementation on all cases", ndis == 0, f"{ndis} disagreements" if ndis else "")
+            rep.obligation("correspondence:model=implementation on all cases", ndis == 0, f"{ndis} disagreements {dis_ops}" if ndis else "")
         except Exception as ex:  # noqa
             rep.obligation("correspondence:model evaluation", False, repr(ex))
     else:
